@@ -3,8 +3,8 @@
 (* pool size and load multiplier, the sets, the programs of the driver threads, the body    *)
 (* (program) of every task and which tasks throw.                                            *)
 EXTENDS TaskSet
-CONSTANT Cfg
-MCInit == InitWith(Cfg)
+CONSTANT CfgSet      \* the configurations explored by one TLC run (one initial state each)
+MCInit == \E c \in CfgSet : InitWith(c)
 MCSpec == MCInit /\ [][Next]_vars
 
 O(op, s, k, n) == [op |-> op, s |-> s, k |-> k, n |-> n]
@@ -93,4 +93,34 @@ Cfg_exc == Mk(2, 4, <<SetR("cts", 0, 4, 0)>>,
 Cfg_recursive == Mk(1, 1, <<SetR("cts", 0, 1, 0)>>,
    [d1 |-> <<O("new", 1, 0, 0), O("sched", 1, 1, 0), O("trywait", 1, 0, 1), O("wait", 1, 0, 0), O("del", 1, 0, 0)>>],
    <<(<<O("sched", 1, 2, 0), O("sched", 1, 3, 0)>>), <<>>, <<>>>>, <<0, 0, 1>>, 1, {"w0"})
+
+\* ---- sets of configurations per check and tier (one TLC run each)
+S_ts1 == {Cfg_ts1}
+S_ts2 == {Cfg_ts2}
+S_pool0 == {Cfg_pool0}
+S_cts_cancel == {Cfg_cts_cancel}
+S_cts_cancel_unfixed == {Cfg_cts_cancel_unfixed}
+S_seq_cancel == {Cfg_seq_cancel}
+S_seq_cancel_unfixed == {Cfg_seq_cancel_unfixed}
+S_seq_cancel_unfixed_heavy == {Cfg_seq_cancel_unfixed_heavy}
+S_heavy == {Cfg_heavy}
+S_nested == {Cfg_nested}
+S_nested1 == {Cfg_nested1}
+S_exc == {Cfg_exc}
+S_exc2 == {Cfg_exc2}
+S_exc_cancel == {Cfg_exc_cancel}
+S_recursive == {Cfg_recursive}
+S_seq0_cancel == {Cfg_seq0_cancel}
+S_seq0_cancel_heavy == {Cfg_seq0_cancel_heavy}
+S_seq0_cancel_unfixed == {Cfg_seq0_cancel_unfixed}
+S_seq0_cancel_unfixed_heavy == {Cfg_seq0_cancel_unfixed_heavy}
+Set_c02_quick == {Cfg_ts1, Cfg_pool0, Cfg_recursive}
+Set_c02_thorough == {Cfg_ts1, Cfg_pool0, Cfg_recursive, Cfg_ts2, Cfg_heavy, Cfg_nested}
+Set_c04_quick == {Cfg_seq0_cancel, Cfg_seq0_cancel_heavy, Cfg_exc_cancel, Cfg_nested1}
+Set_c04_thorough == {Cfg_seq0_cancel, Cfg_seq0_cancel_heavy, Cfg_exc_cancel, Cfg_nested1, Cfg_cts_cancel, Cfg_nested, Cfg_seq_cancel}
+Set_c04_unfixed == {Cfg_seq0_cancel_unfixed, Cfg_seq0_cancel_unfixed_heavy}
+Set_c05_quick == {Cfg_exc2, Cfg_exc_cancel, Cfg_ts1}
+Set_c05_thorough == {Cfg_exc2, Cfg_exc_cancel, Cfg_ts1, Cfg_exc, Cfg_heavy, Cfg_recursive}
+Set_c47_quick == {Cfg_ts2}
+Set_c47_thorough == {Cfg_ts2, Cfg_exc2, Cfg_heavy}
 =============================================================================
